@@ -8,8 +8,10 @@
 (*    status : "ok" | "diag" | other,   parsed and ran | ParsingException | *)
 (*                                      anything else (internal error...)   *)
 (*    obs    : Seq([p, rows]),          rows SQLite returned for main's p   *)
-(*    heads  : Seq(STRING)]             head predicate of every rule of     *)
+(*    heads  : Seq(STRING),             head predicate of every rule of     *)
 (*                                      ParseFile(main)['rule'] (no @...)   *)
+(*    flat_heads : Seq(STRING)]         the same for the one-file text of   *)
+(*                                      ImFlatten(g), same parser           *)
 (* Verdict per line (printed as <<"V", json>>):                            *)
 (*   expect = ImExpect(g);  if "ok":                                       *)
 (*     accept      the program was accepted and ran                        *)
@@ -17,8 +19,10 @@
 (*     rules_once  every file's rules are in the rule set exactly once:    *)
 (*                 the number of rules, the number of distinct predicates  *)
 (*                 and the histogram of rules-per-predicate are those of   *)
-(*                 the flattened program; main's predicates keep their     *)
-(*                 names (nothing is said about the names of the others)   *)
+(*                 the flattened program (as the same parser parses it,    *)
+(*                 and for the pools the parser does not rewrite also as   *)
+(*                 the specification counts them); main's predicates keep  *)
+(*                 their names (nothing is said about the other names)     *)
 (*   else  reject  a parsing diagnostic, not an internal error and not     *)
 (*                 acceptance                                              *)
 (***************************************************************************)
@@ -32,17 +36,38 @@ ObsCount(heads, h) == Cardinality({k \in 1..Len(heads) : heads[k] = h})
 ObsNames(heads) == {heads[k] : k \in 1..Len(heads)}
 
 FlatPreds(g) == ImFlatten(g).preds
-RulesOnce(g, heads) ==
+Hist(heads, n) == Cardinality({h \in ObsNames(heads) : ObsCount(heads, h) = n})
+MaxC == 12
+
+(* against the specification's own count (pools whose rules the parser      *)
+(* keeps as they are)                                                       *)
+SpecRulesOnce(g, heads) ==
   LET fp == FlatPreds(g)
-      main == ImModule(g, 1)
-      maxc == 8
   IN /\ Len(heads) = FoldLeft(LAMBDA acc, p : acc + Len(p.rules), 0, fp)
      /\ Cardinality(ObsNames(heads)) = Len(fp)
-     /\ \A n \in 1..maxc :
-          Cardinality({h \in ObsNames(heads) : ObsCount(heads, h) = n}) =
-          Cardinality({k \in 1..Len(fp) : Len(fp[k].rules) = n})
-     /\ \A h \in ObsNames(heads) : ObsCount(heads, h) <= maxc
-     /\ \A k \in 1..Len(main) : ObsCount(heads, main[k].name) = Len(main[k].rules)
+     /\ \A n \in 1..MaxC :
+          Hist(heads, n) = Cardinality({k \in 1..Len(fp) : Len(fp[k].rules) = n})
+
+(* against the rule set the SAME parser makes of the hand-flattened program *)
+(* (text of ImFlatten(g)): whatever the parser rewrites (auxiliary          *)
+(* predicates of multi-body aggregation, disjunctive normal form) it must    *)
+(* rewrite the same way in both, up to the names of imported predicates      *)
+FlatRulesOnce(g, heads, flat) ==
+  LET main == ImModule(g, 1)
+  IN /\ Len(heads) = Len(flat)
+     /\ Cardinality(ObsNames(heads)) = Cardinality(ObsNames(flat))
+     /\ \A n \in 1..MaxC : Hist(heads, n) = Hist(flat, n)
+     /\ \A h \in ObsNames(heads) : ObsCount(heads, h) <= MaxC
+     /\ \A h \in ObsNames(flat) : ObsCount(flat, h) <= MaxC
+     /\ \A k \in 1..Len(main) :
+          /\ ObsCount(heads, main[k].name) = ObsCount(flat, main[k].name)
+          /\ ObsCount(heads, main[k].name) >= 1
+     \* every predicate of the flattened program is there
+     /\ Cardinality(ObsNames(flat)) >= Len(FlatPreds(g))
+
+RulesOnce(g, heads, flat) ==
+  /\ FlatRulesOnce(g, heads, flat)
+  /\ ~ImHasAgg(g) => SpecRulesOnce(g, heads) /\ SpecRulesOnce(g, flat)
 
 (* Bag equality by counting (LSem!BagMatch backtracks, which is exponential *)
 (* on a mismatch with many equal rows; the rows here are plain integers,   *)
@@ -66,7 +91,7 @@ Verdict(c) ==
         ELSE IF exp = "ok"
         THEN IF c.status # "ok" THEN "accept"
              ELSE IF ~RowsOk(g, c.obs) THEN "rows"
-             ELSE IF ~RulesOnce(g, c.heads) THEN "rules_once"
+             ELSE IF ~RulesOnce(g, c.heads, c.flat_heads) THEN "rules_once"
              ELSE "ok"
         ELSE IF c.status # "diag" THEN "reject" ELSE "ok"
   IN [id |-> c.id, parser |-> c.parser, expect |-> exp, ok |-> clause = "ok",
